@@ -7,7 +7,7 @@
 (*                        | {ev:"CheckEnd"|"RunEnd", outcome, err}],  post: {ms, nev}}]}                   *)
 (* Verdicts are total: every history gets one <<"V", {id, failed}>> line; `failed` lists                 *)
 (* <<op index, clause, position of the first event no specification action can produce>>.               *)
-EXTENDS PandoraMachine, MC_Tables, Json, IOUtils
+EXTENDS PandoraMachine, MC_Tables, Multiscale, Json, IOUtils
 
 Traces == ndJsonDeserialize(IOEnv.TRACE_FILE)
 
@@ -51,9 +51,23 @@ OpVerdict(k, o) ==
        ev == IF r.stuck = 0 THEN {} ELSE {<<k, "events", r.stuck>>}
        pr == IF r.stuck # 0 THEN {} ELSE UNION {{<<k, c, 0>> : c \in PropsOf(s)} : s \in r.S}
        \* the statement requires the initial state after a SUCCESSFUL check or run
+       \* C15: the number of processed scales is the one configured by the multiscale step; every step execution sees the image
+       \* of its pyramid level; the coarsest level searches the user interval divided by sf^(ns-1)
+       ms == IF "dns" \in DOMAIN o
+             THEN (IF o.ns # o.dns THEN {<<k, "scales_processed", 0>>} ELSE {})
+                  \cup {<<k, "pyramid_shape", j>> : j \in {i \in 1..Len(o.events) :
+                             o.events[i].ev = "RunCb" /\ "rows" \in DOMAIN o.events[i] /\ o.events[i].scale >= 0
+                             /\ ~(o.events[i].rows = ShapeAt(o.base_rows, o.sf, o.events[i].scale)
+                                  /\ o.events[i].cols = ShapeAt(o.base_cols, o.sf, o.events[i].scale))}}
+                  \cup {<<k, "coarsest_interval", j>> : j \in {i \in 1..Len(o.events) :
+                             o.events[i].ev = "RunCb" /\ "dlo" \in DOMAIN o.events[i] /\ o.events[i].scale = o.dns - 1 /\ o.events[i].side = "L"
+                             /\ ~(CoarseBoundOk(o.umin, o.sf, o.dns - 1, o.events[i].dlo) /\ CoarseBoundOk(o.umax, o.sf, o.dns - 1, o.events[i].dhi))}}
+                  \cup (IF ~o.final_shape_ok THEN {<<k, "final_shape", 0>>} ELSE {})
+                  \cup (IF ~o.inputs_ok THEN {<<k, "inputs_unmodified", 0>>} ELSE {})
+             ELSE {}
        po == IF o.events[Len(o.events)].outcome \in {"accepted", "ran"} /\ ~(o.post.ms = "begin" /\ o.post.nev = 0)
              THEN {<<k, "post_initial", 0>>} ELSE {}
-   IN ev \cup pr \cup po
+   IN ev \cup pr \cup po \cup ms
 
 Verdict(t) == UNION {OpVerdict(k, t.ops[k]) : k \in 1..Len(t.ops)}
 
